@@ -214,6 +214,27 @@ def gen_client_ops(rng: random.Random, keys: list[str], n: int, scale: float, mi
     return ops
 
 
+BURST_OFFSETS = [0.0, 0.0, 0.0, 1e-6, 3e-6, 6e-6, 9e-6, 1.2e-5]
+
+
+def gen_burst_clients(rng: random.Random, keys: list[str], scale: float, mix: dict, scans=True, max_clients=9) -> list[dict]:
+    """One-shot clients grouped in 1-3 bursts: the clients of one burst start within 0-12 microseconds of one
+    instant (often the very same nanosecond), so that operations of different clients sit inside each other's
+    shortest internal latencies (memtable write 10 us, transaction begin / write 1 us).  Each issues 1-2 ops."""
+    clients: list[dict] = []
+    t = gen_think(rng, 2 * scale)
+    for _ in range(rng.randint(1, 3)):
+        for _ in range(rng.randint(2, 5)):
+            if len(clients) >= max_clients:
+                break
+            ops = gen_client_ops(rng, keys, rng.choice([1, 1, 2]), 0.0, mix, scans)
+            for op in ops:
+                op[0] = rng.choice(BURST_OFFSETS)
+            clients.append({"start": round((t + rng.choice(BURST_OFFSETS)) / US) * US, "ops": ops})
+        t += scale + gen_think(rng, 4 * scale)
+    return clients
+
+
 # --------------------------------------------------------------------------
 # client process + history
 
@@ -308,6 +329,8 @@ class Sampler:
         self.store = store
         self.engine = cfg["engine"]
         self.flushes: list[int] = []  # completion times (ns)
+        self.flush_keys: list[int] = []  # keys of the SSTable installed by that flush (from public level_summary), 0 = unknown
+        self._l0_keys = 0
         self.compactions: list[int] = []
         self.splits: list[int] = []
         self._last = (0, 0, 0)
@@ -325,7 +348,14 @@ class Sampler:
             s = self.store.stats
             f, c, _ = self._last
             if s.memtable_flushes > f:
-                self.flushes.extend([t] * (s.memtable_flushes - f))
+                n = s.memtable_flushes - f
+                l0 = next((lv["total_keys"] for lv in self.store.level_summary if lv["level"] == 0), 0)
+                delta = l0 - self._l0_keys
+                self.flushes.extend([t] * n)
+                self.flush_keys.extend([max(0, delta) // n] * n)
+                self._l0_keys = l0
+            elif s.compactions > c:
+                self._l0_keys = next((lv["total_keys"] for lv in self.store.level_summary if lv["level"] == 0), 0)
             if s.compactions > c:
                 self.compactions.extend([t] * (s.compactions - c))
             self._last = (s.memtable_flushes, s.compactions, 0)
